@@ -57,7 +57,7 @@ def run_property(prop, root="/repo", tier="quick", seed=0, only_construct=None, 
     if ctx.errors:
         # part of the analysis failed closed.  Violations already established by other rules are facts about their constructs
         # and are reported (exit 1); with no violation the run is an analysis error (exit 2), never a pass.
-        viol = [i for i in run.instances if i.verdict == "violation"]
+        viol = run.unknown_violations()
         run.extra["analysis_errors"] = list(ctx.errors)
         if not viol or only_construct is not None:
             raise AnalysisError("; ".join(ctx.errors))
